@@ -238,7 +238,7 @@ def _(c):
     A_ = "http://schemas.openxmlformats.org/drawingml/2006/main"
     c.sh.fill.gradient()
     gf = c.sh._element.spPr.find("{%s}gradFill" % A_)
-    for el in gf.findall("{%s}lin" % A_):
+    for el in gf.findall("{%s}lin" % A_) + gf.findall("{%s}path" % A_):     # (the op may be applied to a fill that is radial already)
         gf.remove(el)
     path = etree.fromstring('<a:path xmlns:a="%s" path="circle"><a:fillToRect l="50000" t="50000" r="50000" b="50000"/></a:path>' % A_)
     tile = gf.find("{%s}tileRect" % A_)
